@@ -12,7 +12,7 @@ from .lexstep import STATES, step_unit, state_inv, TERMINATORS
 
 MANIFEST_ENTRY = {
     "category": "proof",
-    "text": "step lemmas proved on the real loop body of Lexer.scan for every scanner state and an arbitrary character: whitespace (space, tab, CR, LF) between tokens changes nothing and emits nothing; `#` comments swallow everything up to the line break and emit nothing; a token state that ends on a look-ahead character emits the same token and reaches the same state as when a space is inserted before that character (adjacency to operators, brackets, line breaks, comments, end of input); CR is a terminator wherever LF is; the single-quote string states are the image of the double-quote states under swapping the quote characters; hex, binary and underscored integer spellings are normalised to the decimal numeral of the same number; `!=`/`<>`, redundant parentheses and trailing semicolons by bounded re-rendering on the real parser/interpreter",
+    "text": "step lemmas proved on the real loop body of Lexer.scan for every scanner state and an arbitrary character: whitespace (space, tab, CR, LF) between tokens changes nothing and emits nothing; `#` comments swallow everything up to the line break and emit nothing; a token state that ends on a look-ahead character emits the same token and reaches the same state as when a space is inserted before that character (adjacency to operators, brackets, line breaks, comments, end of input); CR is a terminator wherever LF is; the single-quote string states are the image of the double-quote states under swapping the quote characters; hex, binary and underscored integer spellings are normalised to the decimal numeral of the same number; `!=`/`<>`, redundant parentheses and trailing semicolons by bounded re-rendering on the real parser/interpreter; the script text reaches the parser and the scanner unchanged (interpret, parse_script); uniformly indented renderings, literals spanning lines, fixed layout pairs for every optional semicolon and parenthesis position (bounded)",
     "note": "composition of the step lemmas to whole programs is a paper argument; code points below U+30000; parser-level clauses bounded",
     "technique": "deductive verification: per-step VCs of the scanner loop body from the real AST + z3; bounded re-rendering for parser-level clauses",
 }
